@@ -1,3 +1,4 @@
 # source this: development build settings of the lead (everything except checks still being written by agents)
 export UV_OWN="c01 c02 c03 c04 c05 c06 c07 c08 c09 c10 c12 c14 c15 c16 c17 c18 c19 c20 fgrammar pyref wbuild main common dump pool e1 e2"
 export UV_TARGET=/verif/.target-me
+export UV_OWN="$UV_OWN c11 c13"
